@@ -562,9 +562,11 @@ func c07Eval(c c07Case) (ok bool, sig, detail string) {
 			return false, "len-vs-residues", what + fmt.Sprintf(": record %d reports Len()=%d but delivers %d residues", i, out.lens[i], out.nres[i])
 		}
 	}
-	// an empty DBLINK value is never read as a value (whatever else becomes of the record)
-	if out.emptyDB != "" {
-		return false, "empty-dblink-value-read", what + ": a DBLINK entry with no value was read as a cross reference: " + out.emptyDB
+	// a DBLINK line that ends at its colon has no value: it is never read as a cross reference (whatever else becomes of
+	// the record).  "db: " with the separator blank and an empty or blank id is what the writer emits for such a value
+	// and must read back (C01), so the blank variants of the mutation are not judged by this clause.
+	if c.Mut == "dblinkval" && c.B%4 == 0 && out.emptyDB != "" {
+		return false, "empty-dblink-value-read", what + ": a DBLINK line that ends at the colon was read as a cross reference: " + out.emptyDB
 	}
 	// environment answers must not matter
 	if mode != "full" {
